@@ -59,6 +59,7 @@ type alt struct {
 type entry struct {
 	cls  string // stable description of the request's shape, used in violation keys
 	alts []alt
+	feat map[string]bool // what the struct-typed parameters of the request exercise (valid_classify.go)
 }
 
 type topMode uint8
@@ -281,6 +282,9 @@ func classifyEntry(v *jv) (entry, string) {
 	var bind bindResult
 	if m != nil && !paramsScalar {
 		bind = bindParams(m, pv, hasParams)
+		if bind.und != "" && undecided == "" {
+			undecided = bind.und
+		}
 	}
 
 	invalidIDs := []*jv{jnull()}
@@ -336,7 +340,8 @@ func classifyEntry(v *jv) (entry, string) {
 		default:
 			e.cls = "valid/" + idCls
 		}
-		e.cls += ":" + bind.form
+		e.cls += ":" + bind.form + vShape(bind.feat)
+		e.feat = bind.feat
 		for _, im := range idModes {
 			if bind.ok {
 				a := alt{respond: im.respond, call: &callSpec{m: m, args: bind.args}}
@@ -385,7 +390,9 @@ func classifyEntry(v *jv) (entry, string) {
 type bindResult struct {
 	ok, bad bool
 	args    []*jv
-	form    string // none | pos | named
+	form    string          // none | pos | named
+	feat    map[string]bool // what the struct-typed parameters of the call exercise (valid_classify.go)
+	und     string          // non-empty: a struct-typed parameter is outside what the documents decide
 }
 
 type tcheck uint8
@@ -397,6 +404,9 @@ const (
 )
 
 func defaultOf(t ptype) *jv {
+	if isV(t) {
+		return vDefault(t)
+	}
 	switch t {
 	case tInt:
 		return jnum("0")
@@ -497,6 +507,8 @@ func bindParams(m *mspec, pv *jv, has bool) bindResult {
 	}
 	args := defaults()
 	either := false
+	feat := map[string]bool{}
+	und := ""
 	switch pv.k {
 	case jArr:
 		n := len(pv.arr)
@@ -508,39 +520,43 @@ func bindParams(m *mspec, pv *jv, has bool) bindResult {
 			n = len(m.params)
 		}
 		for i := 0; i < n; i++ {
-			tc, want := typeCheck(m.params[i].t, pv.arr[i])
+			tc, want := typeCheckF(m.params[i].t, pv.arr[i], feat)
 			switch tc {
 			case tcBad:
-				return bindResult{bad: true, form: "pos"}
+				return bindResult{bad: true, form: "pos", feat: feat, und: und}
 			case tcEither:
 				either = true
+			case tcUnd:
+				und, want = vUndecided(feat), jnull()
 			}
 			args[i] = want
 		}
-		return bindResult{ok: true, bad: either, args: args, form: "pos"}
+		return bindResult{ok: true, bad: either, args: args, form: "pos", feat: feat, und: und}
 	default: // object
 		used := 0
 		for i, p := range m.params {
 			sv, ok := pv.get(p.name)
 			if !ok {
 				if !p.optional {
-					return bindResult{bad: true, form: "named"}
+					return bindResult{bad: true, form: "named", feat: feat, und: und}
 				}
 				continue
 			}
 			used++
-			tc, want := typeCheck(p.t, sv)
+			tc, want := typeCheckF(p.t, sv, feat)
 			switch tc {
 			case tcBad:
-				return bindResult{bad: true, form: "named"}
+				return bindResult{bad: true, form: "named", feat: feat, und: und}
 			case tcEither:
 				either = true
+			case tcUnd:
+				und, want = vUndecided(feat), jnull()
 			}
 			args[i] = want
 		}
 		if used < len(pv.keys) {
 			either = true // names the method does not have: the specification is silent
 		}
-		return bindResult{ok: true, bad: either, args: args, form: "named"}
+		return bindResult{ok: true, bad: either, args: args, form: "named", feat: feat, und: und}
 	}
 }
